@@ -2,7 +2,7 @@ SPECIFICATION Spec
 CONSTANTS
   Transport = "quic"
   ResidueAfterFailure = FALSE
-  ShortCookieRead = TRUE
+  ShortCookieRead = FALSE
   DialResetsData = TRUE
   Alpns <- AlpnsQuic
   Alphabet <- AlphaCore
